@@ -10,6 +10,7 @@ mod wire;
 mod router;
 mod sched;
 mod crash;
+mod recvset;
 
 fn main() {
     let args: Vec<String> = std::env::args().collect();
@@ -23,6 +24,7 @@ fn main() {
         "router" => router::run(&args[2..]),
         "sched" => sched::run(&args[2..]),
         "crash" => crash::run(&args[2..]),
+        "set" => recvset::run(&args[2..]),
         "crashchild" => crash::child(&args[2..]),
         s => {
             eprintln!("unknown scenario {}", s);
